@@ -223,6 +223,20 @@ func init() {
 		return nil
 	}
 
+	// cmd/ion-go: the error report and event stream are serialised by ion.Encoder (reflection): environment
+	intrinsics["(*"+strings.TrimSuffix(PC, ".")+".ErrorReport).Append"] = func(e *Engine, f *frame, a []Value) Value {
+		e.used("cmd/ion-go ErrorReport.Append (ion.Encoder, reflection) = no-op")
+		return nil
+	}
+	intrinsics["(*"+strings.TrimSuffix(P, ".")+".Encoder).Encode"] = func(e *Engine, f *frame, a []Value) Value {
+		e.used("ion.Encoder.Encode (reflection) = returns nil")
+		return nilIface
+	}
+	intrinsics[PC+"stringify"] = func(e *Engine, f *frame, a []Value) Value {
+		e.used("cmd/ion-go stringify (ion.MarshalText, reflection) = opaque text")
+		return e.strConst("<value>")
+	}
+
 	// assembly in internal/bytealg
 	intrinsics["internal/bytealg.IndexByteString"] = func(e *Engine, f *frame, a []Value) Value {
 		return e.indexByte(a[0].(*StrV).b, e.term(a[1]))
